@@ -1,6 +1,7 @@
 /-
   C09 — The views of one result agree: Text, HTML, ContentImages and WordCount.
 -/
+import Distill.Props.RenderProps
 import Distill.Model.Words
 import Distill.Props.FiltersProps
 import Distill.Proofs.Render
